@@ -299,3 +299,9 @@ Definition regs_of (s : lstate) : regs := {|
   r_column := s_column s; r_is_stmt := negb (s_is_stmt s =? 0); r_basic_block := s_basic_block s;
   r_end_sequence := s_end_sequence s; r_prologue_end := s_prologue_end s;
   r_epilogue_begin := s_epilogue_begin s; r_isa := s_isa s; r_discriminator := s_discriminator s |}.
+
+(* the rows of the line table, as registers *)
+Definition rows_model (c : lcfg) (h : lparams) (appendable : bool) (sec : list Z) (start end_ : Z)
+  : res (list regs) :=
+  do (es, fs, rem, rest) <- decode_line_program c h appendable sec start end_;
+  Ok (map regs_of (entry_states es)).
